@@ -57,8 +57,8 @@ def run(ctx):
     # (foreignact: a revision labelled for the package, Active, controlled by another owner - e.g. left behind by an
     # earlier incarnation of the package: nothing may be activated next to it)
     # (quick_mid: the environment - user edits, registry changes, a revision deleted by hand - also acts in the middle of a reconcile)
-    cfgs = [("MCPkgManager_quick.cfg", 2200), ("MCPkgManager_foreignact.cfg", 400), ("MCPkgManager_quick_mid.cfg", 600)] if quick else \
-           [("MCPkgManager_thorough.cfg", 30000), ("MCPkgManager_mid.cfg", 26000), ("MCPkgManager_foreignact.cfg", 4000)]
+    cfgs = [("MCPkgManager_quick.cfg", 2200), ("MCPkgManager_foreignact.cfg", 400), ("MCPkgManager_foreign2.cfg", 300), ("MCPkgManager_quick_mid.cfg", 600)] if quick else \
+           [("MCPkgManager_thorough.cfg", 30000), ("MCPkgManager_mid.cfg", 26000), ("MCPkgManager_foreignact.cfg", 4000), ("MCPkgManager_foreign2.cfg", 4000)]
     scs, states, trans, emitted = [], 0, 0, 0
     consts = {}
     for i, (cfg, n) in enumerate(cfgs):
